@@ -134,3 +134,255 @@ void h_mark_event(void)
 	if (r != 0 && g_wellformed && w_v == ']' && w_ch_type == CHAN_STACK && w_top_t == VALUE_INT64 && w_top_i != w_value) REACH("mismatched pop refused");
 	if (r != 0 && g_wellformed && w_v == ']' && w_ch_type == CHAN_STACK && w_top_t == VALUE_INT64 && w_top_i == w_value) REACH("matching pop refused by the channel layer (dirty)");
 }
+
+/* =====================================================================================
+ * 2a. create_mark_type: a new type gets Paraver type 100 + type, the next free index
+ *     (0, 1, 2, ... in definition order), the given channel type; a type that is
+ *     already defined is refused.
+ * ===================================================================================== */
+/* strings: C17_SMAX bytes including the NUL (C17_STR groups, kind "bounded") */
+#ifndef C17_SMAX
+#define C17_SMAX 9
+#endif
+#ifdef C17_STR
+#define STR_OK(s) (__CPROVER_is_fresh((s), C17_SMAX) && (s)[C17_SMAX - 1] == '\0')
+/* stored strings (char[MAX_PCF_LABEL] members) */
+#define STORED_OK(a) ((a)[C17_SMAX - 1] == '\0')
+static int spec_str_eq(const char *a, const char *b)
+{
+	for (int k = 0; k < C17_SMAX; k++) {
+		if (a[k] != b[k]) return 0;
+		if (a[k] == '\0') return 1;
+	}
+	return 1;
+}
+#else
+#define STR_OK(s) ((s) != NULL)
+#define STORED_OK(a) 1
+#define spec_str_eq(a, b) 1
+#endif
+
+long w_ntypes; int w_ctype;
+WITNESS(create_mark_type);
+#define HL_TYPE ((struct mark_type *) g_hl.item)
+
+struct mark_type *c_create_mark_type(struct ovni_mark_emu *m, long type, enum chan_type ctype, const char *title)
+__CPROVER_requires(__CPROVER_is_fresh(m, sizeof(*m)) && m == g_fm_m && type == g_mt_key)
+/* callers (parse_mark) guarantee the documented range; proved there */
+__CPROVER_requires(type >= 0 && type < 100)
+__CPROVER_requires(m->ntypes >= 0 && m->ntypes < C17_MAX_TYPES)
+__CPROVER_requires(STR_OK(title) && DIAG_PRE && LOW_PRE && HLOG_PRE && g_find_calls == 0)
+__CPROVER_requires(g_mt == NULL || __CPROVER_is_fresh(g_mt, sizeof(struct mark_type)))
+__CPROVER_requires(WBIND(create_mark_type, w_type == (int) type && w_ntypes == m->ntypes && w_ctype == (int) ctype && w_defined == (g_mt != NULL)))
+__CPROVER_assigns(m->types, m->ntypes, g_find_calls, HLOG_FRAME, CALLOC_FRAME, DIAG_FRAME)
+/* created exactly when the type is not yet defined and no lower layer (calloc, title
+ * longer than a PCF label) failed */
+__CPROVER_ensures((RV != NULL) == (g_mt == NULL && g_lowfail == OLD(g_lowfail)))
+__CPROVER_ensures(RV == NULL || (__CPROVER_is_fresh(RV, sizeof(struct mark_type))))
+__CPROVER_ensures(RV == NULL || (
+	RV->type == type && RV->ctype == ctype && RV->labels == NULL &&
+	RV->prvtype == 100 + type &&                       /* statement: "Paraver type 100 + mark type" */
+	RV->index == OLD(m->ntypes) && m->ntypes == OLD(m->ntypes) + 1 &&
+	spec_str_eq(RV->title, title)))
+/* inserted in the table under its type */
+__CPROVER_ensures(RV == NULL || (g_hl.n == OLD(g_hl.n) + 1 && g_hl.head == (void *) &m->types && g_hl.item == (void *) RV &&
+	g_hl.key == type && g_hl.keylen == sizeof(long) &&
+	(OLD(m->types) == NULL ? m->types == RV : m->types == OLD(m->types))))
+__CPROVER_ensures(RV != NULL || (m->ntypes == OLD(m->ntypes) && m->types == OLD(m->types) && g_hl.n == OLD(g_hl.n) && g_err > OLD(g_err)))
+;
+
+void h_create_mark_type(void)
+{
+	struct ovni_mark_emu *m; long type; enum chan_type ctype; const char *title;
+	WITNESS_ON(create_mark_type);
+	unsigned lf0 = g_lowfail;
+	struct mark_type *t = create_mark_type(m, type, ctype, title);
+	if (t != NULL) REACH("type created");
+	if (t != NULL && w_type == 99 && w_ntypes == 0) REACH("type 99 created as the first type");
+	if (t != NULL && w_type == 0 && w_ntypes == 5 && w_ctype == CHAN_STACK) REACH("type 0 created as the sixth type, stack");
+	if (t == NULL && w_defined) REACH("redefinition refused");
+	if (t == NULL && !w_defined) REACH("refused by a lower layer");
+}
+
+/* =====================================================================================
+ * 2b. add_label: a value that already has a label is accepted iff the label is the same
+ *     (definitions by different threads merge when they agree); a new value is added.
+ * ===================================================================================== */
+struct mark_type *g_fl_t; int64_t g_fl_key; struct mark_label *g_fl;
+unsigned g_findl_calls;
+struct mark_label *ca_find_label(struct mark_type *t, int64_t value)
+__CPROVER_requires(t == g_fl_t && value == g_fl_key)
+__CPROVER_assigns(g_findl_calls)
+__CPROVER_ensures(g_findl_calls == OLD(g_findl_calls) + 1)
+__CPROVER_ensures(__CPROVER_pointer_equals(RV, g_fl))
+;
+#define HL_LABEL ((struct mark_label *) g_hl.item)
+int g_same; long long w_lvalue; char w_old[C17_SMAX], w_new[C17_SMAX];
+WITNESS(add_label);
+#ifdef C17_STR
+#define W_STR(w, s) ((w)[0] == (s)[0] && (w)[1] == (s)[1] && (w)[2] == (s)[2] && (w)[3] == (s)[3] && (w)[C17_SMAX - 1] == (s)[C17_SMAX - 1])
+#else
+#define W_STR(w, s) 1
+#endif
+
+int c_add_label(struct mark_type *t, int64_t value, const char *label)
+__CPROVER_requires(__CPROVER_is_fresh(t, sizeof(*t)) && t == g_fl_t && value == g_fl_key && STR_OK(label))
+__CPROVER_requires(g_fl == NULL || (__CPROVER_is_fresh(g_fl, sizeof(struct mark_label)) && g_fl->value == value && STORED_OK(g_fl->label)))
+__CPROVER_requires(g_fl == NULL || g_same == spec_str_eq(g_fl->label, label))
+__CPROVER_requires(DIAG_PRE && LOW_PRE && HLOG_PRE && g_findl_calls == 0)
+__CPROVER_requires(WBIND(add_label, w_defined == (g_fl != NULL) && w_lvalue == value && W_STR(w_new, label) && (g_fl == NULL || W_STR(w_old, g_fl->label))))
+__CPROVER_assigns(t->labels, g_findl_calls, HLOG_FRAME, CALLOC_FRAME, DIAG_FRAME)
+__CPROVER_ensures(RV == 0 || RV == -1)
+/* value already labelled: accepted iff the labels agree, and nothing is added */
+__CPROVER_ensures(g_fl == NULL || ((RV == 0) == (g_same != 0) && g_hl.n == OLD(g_hl.n) && t->labels == OLD(t->labels) && g_lowfail == OLD(g_lowfail)))
+/* new value: added (unless calloc fails / label longer than a PCF label) with that value and label */
+__CPROVER_ensures(g_fl != NULL || (RV == 0) == (g_lowfail == OLD(g_lowfail)))
+__CPROVER_ensures(g_fl != NULL || RV != 0 || (g_hl.n == OLD(g_hl.n) + 1 && g_hl.head == (void *) &t->labels &&
+	g_hl.key == value && g_hl.keylen == sizeof(int64_t) &&
+	__CPROVER_is_fresh(HL_LABEL, sizeof(struct mark_label)) && HL_LABEL->value == value && spec_str_eq(HL_LABEL->label, label) &&
+	(OLD(t->labels) == NULL ? t->labels == HL_LABEL : t->labels == OLD(t->labels))))
+__CPROVER_ensures(RV == 0 || (g_hl.n == OLD(g_hl.n) && t->labels == OLD(t->labels) && g_err > OLD(g_err)))
+;
+
+void h_add_label(void)
+{
+	struct mark_type *t; int64_t value; const char *label;
+	WITNESS_ON(add_label);
+	int r = add_label(t, value, label);
+	if (r == 0 && w_defined) REACH("same label for a labelled value accepted (merge)");
+	if (r != 0 && w_defined) REACH("different label for a labelled value refused");
+	if (r == 0 && !w_defined) REACH("label for a new value added");
+	if (r == 0 && !w_defined && w_lvalue < 0) REACH("label for a negative value added");
+	if (r != 0 && !w_defined) REACH("new label refused by a lower layer");
+#ifdef C17_STR
+	if (r != 0 && w_defined && w_old[0] == 'a' && w_new[0] == 'a' && w_old[1] == 0 && w_new[1] == 'b') REACH("label 'a' vs 'ab...' refused");
+#endif
+}
+
+/* =====================================================================================
+ * 2c. parse_mark: one "ovni.mark.<type>" definition of one thread's metadata.
+ *     Refused: type not a number in [0,100), missing title/chan_type, chan_type neither
+ *     "single" nor "stack", a type already defined (by another thread) with another title
+ *     or another channel type.  An agreeing redefinition is merged (no new type).
+ *
+ * parson (not verified): ghost view of the ONE definition object under parse; getters
+ * return the view's fields (any of them may be NULL = absent / wrong JSON type) and
+ * count a misuse (other object, other key) in g_j_bad.
+ * strtol (libc): abstract -- returns an arbitrary number g_st_val, an arbitrary end
+ * position and an arbitrary errno; the range and "whole string consumed" checks of
+ * parse_mark are then about these.
+ * ===================================================================================== */
+extern int __CPROVER_errno;
+const JSON_Value *g_j_markval; JSON_Object *g_j_mark, *g_j_labels;
+const char *g_j_title, *g_j_ctype; int g_j_has_labels;
+unsigned g_j_bad;
+JSON_Object *json_value_get_object(const JSON_Value *v) { if (v != g_j_markval) g_j_bad++; return g_j_mark; }
+const char *json_object_get_string(const JSON_Object *o, const char *name)
+{
+	if (o != g_j_mark) g_j_bad++;
+	if (strcmp(name, "title") == 0) return g_j_title;
+	if (strcmp(name, "chan_type") == 0) return g_j_ctype;
+	g_j_bad++;
+	return NULL;
+}
+int json_object_has_value(const JSON_Object *o, const char *name)
+{
+	if (o != g_j_mark || strcmp(name, "labels") != 0) g_j_bad++;
+	return g_j_has_labels;
+}
+JSON_Object *json_object_get_object(const JSON_Object *o, const char *name)
+{
+	if (o != g_j_mark || strcmp(name, "labels") != 0) g_j_bad++;
+	return g_j_labels;
+}
+long g_st_val; unsigned long g_st_endoff; int g_st_errno; unsigned g_st_calls; const char *g_st_arg;
+long strtol(const char *s, char **end, int base)
+{
+	g_st_calls++; g_st_arg = s;
+	if (base != 10 || end == NULL) g_j_bad++;
+	if (end != NULL) *end = (char *) s + g_st_endoff;
+	if (g_st_errno != 0) errno = g_st_errno;
+	return g_st_val;
+}
+
+/* parse_labels: call-log abstraction (proved separately in group parse_labels) */
+struct c17_pl { unsigned n; struct mark_type *t; JSON_Object *labels; int ret; } g_pl;
+int cl_parse_labels(struct mark_type *t, JSON_Object *labels)
+__CPROVER_requires(g_pl.n < 1000u)
+__CPROVER_assigns(g_pl)
+__CPROVER_ensures(g_pl.n == OLD(g_pl.n) + 1 && g_pl.t == t && g_pl.labels == labels && g_pl.ret == RV && (RV == 0 || RV == -1))
+;
+
+#define CT_SINGLE(s) ((s)[0] == 's' && (s)[1] == 'i' && (s)[2] == 'n' && (s)[3] == 'g' && (s)[4] == 'l' && (s)[5] == 'e' && (s)[6] == '\0')
+#define CT_STACK(s) ((s)[0] == 's' && (s)[1] == 't' && (s)[2] == 'a' && (s)[3] == 'c' && (s)[4] == 'k' && (s)[5] == '\0')
+#define CT_OF(s) (CT_SINGLE(s) ? CHAN_SINGLE : CHAN_STACK)
+
+int g_pre, g_agree; unsigned long g_tslen;
+int w_pre, w_agree, w_errno, w_has_labels, w_labels_null, w_old_ctype, w_title_null, w_ctype_null, w_mark_null, w_ct_single, w_ct_stack, w_title_eq;
+long w_val; unsigned long w_endoff;
+WITNESS(parse_mark);
+
+int c_parse_mark(struct ovni_mark_emu *m, const char *typestr, JSON_Value *markval)
+__CPROVER_requires(__CPROVER_is_fresh(m, sizeof(*m)) && m == g_fm_m && m->ntypes >= 0 && m->ntypes < C17_MAX_TYPES)
+__CPROVER_requires(g_tslen < (1UL << 20) && __CPROVER_is_fresh(typestr, g_tslen + 1) && typestr[g_tslen] == '\0' && g_st_endoff <= g_tslen)
+__CPROVER_requires(markval == g_j_markval)
+__CPROVER_requires((g_j_title == NULL || STR_OK(g_j_title)) && (g_j_ctype == NULL || STR_OK(g_j_ctype)))
+/* the type table observed at the parsed number; table invariant */
+__CPROVER_requires(g_mt_key == g_st_val)
+__CPROVER_requires(g_mt == NULL || (__CPROVER_is_fresh(g_mt, sizeof(struct mark_type)) && g_mt->type == g_mt_key &&
+	g_mt->index >= 0 && g_mt->index < m->ntypes && STORED_OK(g_mt->title) &&
+	(g_mt->ctype == CHAN_SINGLE || g_mt->ctype == CHAN_STACK)))
+__CPROVER_requires(DIAG_PRE && LOW_PRE && HLOG_PRE && g_find_calls == 0 && g_pl.n == 0 && g_j_bad == 0 && g_st_calls == 0)
+/* syntactically acceptable definition */
+__CPROVER_requires(g_pre == (g_st_errno == 0 && g_st_endoff != 0 && typestr[g_st_endoff] == '\0' &&
+	g_st_val >= 0 && g_st_val < 100 &&
+	g_j_mark != NULL && g_j_title != NULL && g_j_ctype != NULL && (CT_SINGLE(g_j_ctype) || CT_STACK(g_j_ctype))))
+/* ... that agrees with what another thread defined for the same type, if any */
+__CPROVER_requires(!g_pre || g_agree == (g_mt == NULL || (spec_str_eq(g_mt->title, g_j_title) && g_mt->ctype == CT_OF(g_j_ctype))))
+__CPROVER_requires(WBIND(parse_mark, w_pre == g_pre && w_agree == g_agree && w_defined == (g_mt != NULL) && w_val == g_st_val &&
+	w_endoff == g_st_endoff && w_errno == g_st_errno && w_has_labels == g_j_has_labels && w_labels_null == (g_j_labels == NULL) &&
+	w_title_null == (g_j_title == NULL) && w_ctype_null == (g_j_ctype == NULL) && w_mark_null == (g_j_mark == NULL) &&
+	(g_j_ctype == NULL || (w_ct_single == CT_SINGLE(g_j_ctype) && w_ct_stack == CT_STACK(g_j_ctype))) &&
+	(g_mt == NULL || (w_old_ctype == (int) g_mt->ctype && (g_j_title == NULL || w_title_eq == spec_str_eq(g_mt->title, g_j_title))))))
+__CPROVER_assigns(m->types, m->ntypes, g_find_calls, g_pl, g_j_bad, g_st_calls, g_st_arg, __CPROVER_errno, HLOG_FRAME, CALLOC_FRAME, DIAG_FRAME)
+__CPROVER_ensures(RV == 0 || RV == -1)
+/* accepted exactly when acceptable, agreeing, and no lower layer failed */
+__CPROVER_ensures((RV == 0) == (g_pre && g_agree && g_lowfail == OLD(g_lowfail) &&
+	(!g_j_has_labels || (g_j_labels != NULL && g_pl.n == 1 && g_pl.ret == 0))))
+/* the labels object is handed to parse_labels together with the (old or new) type */
+__CPROVER_ensures(g_pl.n <= 1 && (g_pl.n == 1) == (g_pre && g_agree && g_lowfail == OLD(g_lowfail) && g_j_has_labels && g_j_labels != NULL))
+__CPROVER_ensures(g_pl.n == 0 || (g_pl.labels == g_j_labels && g_pl.t == (g_mt != NULL ? g_mt : HL_TYPE)))
+/* merge: an already defined type is never created again */
+__CPROVER_ensures(g_mt == NULL || (m->ntypes == OLD(m->ntypes) && m->types == OLD(m->types) && g_hl.n == OLD(g_hl.n) && g_lowfail == OLD(g_lowfail)))
+/* new type: exactly one, under Paraver type 100 + type, next index, parsed channel type, given title */
+__CPROVER_ensures(!(g_mt == NULL && g_pre && g_lowfail == OLD(g_lowfail)) || (
+	m->ntypes == OLD(m->ntypes) + 1 && g_hl.n == OLD(g_hl.n) + 1 && g_hl.head == (void *) &m->types && g_hl.key == g_st_val &&
+	HL_TYPE->type == g_st_val && HL_TYPE->prvtype == 100 + g_st_val && HL_TYPE->index == OLD(m->ntypes) &&
+	HL_TYPE->ctype == CT_OF(g_j_ctype) && spec_str_eq(HL_TYPE->title, g_j_title)))
+/* an unacceptable definition changes nothing and looks nothing up */
+__CPROVER_ensures(g_pre || (m->ntypes == OLD(m->ntypes) && m->types == OLD(m->types) && g_hl.n == OLD(g_hl.n) && g_find_calls == 0))
+/* parson / strtol used on the definition under parse only */
+__CPROVER_ensures(g_j_bad == 0 && g_st_calls == 1 && g_st_arg == typestr)
+__CPROVER_ensures(RV == 0 || g_err > OLD(g_err))
+;
+
+void h_parse_mark(void)
+{
+	struct ovni_mark_emu *m; const char *typestr; JSON_Value *markval;
+	WITNESS_ON(parse_mark);
+	int r = parse_mark(m, typestr, markval);
+	if (r == 0 && !w_defined) REACH("new type accepted");
+	if (r == 0 && !w_defined && w_val == 99 && w_ct_single) REACH("new single type 99 accepted");
+	if (r == 0 && !w_defined && w_val == 0 && w_ct_stack) REACH("new stack type 0 accepted");
+	if (r == 0 && w_defined) REACH("agreeing redefinition merged");
+	if (r == 0 && w_has_labels) REACH("accepted with labels");
+	if (r != 0 && w_val == 100 && w_errno == 0 && w_endoff != 0) REACH("type 100 refused");
+	if (r != 0 && w_val == -1 && w_errno == 0 && w_endoff != 0) REACH("type -1 refused");
+	if (r != 0 && w_endoff == 0) REACH("empty / non-numeric type refused");
+	if (r != 0 && w_pre && w_defined && !w_title_eq && w_old_ctype == (w_ct_single ? CHAN_SINGLE : CHAN_STACK)) REACH("title conflict refused");
+	if (r != 0 && w_pre && w_defined && w_title_eq && w_old_ctype == CHAN_STACK && w_ct_single) REACH("channel type conflict refused (stack vs single)");
+	if (r != 0 && w_pre && w_defined && w_title_eq && w_old_ctype == CHAN_SINGLE && w_ct_stack) REACH("channel type conflict refused (single vs stack)");
+	if (r != 0 && !w_mark_null && !w_title_null && !w_ctype_null && !w_ct_single && !w_ct_stack && w_val == 3 && w_errno == 0 && w_endoff != 0) REACH("unknown chan_type refused");
+	if (r != 0 && w_title_null && !w_mark_null) REACH("missing title refused");
+	if (r != 0 && w_pre && w_agree && w_has_labels && !w_labels_null) REACH("refused by parse_labels");
+}
